@@ -151,6 +151,29 @@ def _range(I, st, x, r):
     raise TypeError("range value " + repr(r))
 
 
+def p_set_range(I, st, fr, e, c, a):
+    """self[lo..hi] = v (documented: 'Write to a contiguous range of data in an array')."""
+    recv = a[0]
+    x = _seq(I, st, recv)
+    lo, hi = _range(I, st, x, a[1])
+    v = _seq(I, st, a[2])
+    n = t_len(x)
+    I.pre_ge(st, fr, e, "set_range", hi, lo, f"{show_poly(lo)} <= {show_poly(hi)}")
+    I.pre_ge(st, fr, e, "set_range", n, hi, f"{show_poly(hi)} <= len({show_term(x)})")
+    I.pre_eq(st, fr, e, "set_range", hi - lo, t_len(v))
+    new = mk_concat([mk_slice(st, x, Poly.const(0), lo), v, mk_slice(st, x, hi, n)])
+    if isinstance(recv, VMutRef):
+        I.write_place(st, recv.place, _rewrap_seq(I, st, recv, new))
+    return [(st, UNIT, None)]
+
+
+def _rewrap_seq(I, st, recv, term):
+    cur = I.read_place(st, recv.place)
+    if isinstance(cur, VRec) and set(cur.f) == {"0"}:
+        return cur.with_field("0", VSeq(term))
+    return VSeq(term)
+
+
 def p_get_range(I, st, fr, e, c, a):
     x = _seq(I, st, a[0])
     lo, hi = _range(I, st, x, a[1])
@@ -366,5 +389,5 @@ TABLE = {
     "repeat": p_repeat, "quot_rem": p_quot_rem, "mul_constant_add": p_mul_constant_add,
     "connected_components": p_connected_components, "segmented_sum": p_segmented_sum,
     "segmented_arange": p_segmented_arange, "bincount": p_bincount, "sparse_bincount": p_sparse_bincount,
-    "zero": p_zero, "scatter_sub_assign": p_scatter_sub_assign, "to_range": p_to_range,
+    "zero": p_zero, "scatter_sub_assign": p_scatter_sub_assign, "to_range": p_to_range, "set_range": p_set_range,
 }
